@@ -39,7 +39,19 @@ impl WalletScenario {
             let n = (1 + ch.below("limit", max.min((b - a) as u64)) as u32).min(b - a);
             Some((if ch.chance("from_end", 1, 2) { b - n } else { a }, n as usize))
         } else {
-            Some((base + 1 + ch.below("from", (tip - base) as u64) as u32, 1 + ch.below("limit", max) as usize))
+            let mut from = base + 1 + ch.below("from", (tip - base) as u64) as u32;
+            // a quarter of the batches start right above an anchor-retention boundary (the batch's starting
+            // frontier is then the only checkpoint that boundary may ever get in a pool with no commitment there)
+            if let Some(act) = s.cfg.nu6_3 {
+                if ch.chance("from.on_grid", 1, 4) {
+                    let step = s.cfg.retention.unwrap_or(144);
+                    let b = from - from % step;
+                    if b >= act && b > base && b < tip {
+                        from = b + 1;
+                    }
+                }
+            }
+            Some((from, 1 + ch.below("limit", max) as usize))
         }
     }
 
